@@ -338,6 +338,11 @@ def match(t: Any, p: Any) -> bool:
         return True
     if isinstance(p, tuple) and p and p[0] == "ONEOF":
         return any(match(t, x) for x in p[1])
+    if isinstance(p, tuple) and p and p[0] == "OPT" and isinstance(t, tuple) and t and t[0] == "ALT" and len(t) == 4:
+        # an optional part written as a choice with the empty string: ALT(c, Q, b"") is OPT(c, Q)
+        for q, e_, cond in ((t[2], t[3], t[1]), (t[3], t[2], ("NOT", t[1]))):
+            if e_ in (("CONST", b""), ("CONST", "")):
+                return match(("OPT", cond, q), p)
     if isinstance(t, tuple) and t and t[0] in ("ALT", "ALTS") or isinstance(p, tuple) and p and p[0] in ("ALT", "ALTS"):
         if not (isinstance(t, tuple) and isinstance(p, tuple)):
             return False
